@@ -197,7 +197,8 @@ def oracle(ctx, seeds=None):
                 continue          # nothing requested in the (empty) window and no step taken (maxit = 0): nothing to return
             if not (len(got) >= 1):
                 res.fail(key + ':no-result', "empty result list", rp)
-            elif all(float(q.time) not in tsave for q in got) and not (len(got) == 1 and same_field(got[0], s.Qn)):
+            elif all(not any(abs(float(q.time) - ts) <= 1e-12 * (abs(ts) + dt0) for ts in tsave) for q in got) and not (len(got) == 1 and same_field(got[0], s.Qn)):
+                # (a snapshot of a requested time beyond the stop time but inside the last step is reached by t + (ts - t): equal to ts up to the last bit)
                 res.fail(key + ':fallback', "fallback result is not the final state", rp)
             continue
         gt = [float(q.time) for q in got]
